@@ -19,10 +19,10 @@ from simkit.rng import seed_globals  # noqa: E402
 from simkit.world import result, run_sim  # noqa: E402
 
 PROPERTY = "C16"
-RUNS = {"quick": 10_000, "thorough": 1_000_000}
-WALL = {"quick": 40, "thorough": 1500}
+RUNS = {"quick": 4_000, "thorough": 1_000_000}
+WALL = {"quick": 55, "thorough": 1500}
 BATCH = {"quick": 100, "thorough": 1000}
-SELFTEST_RUNS = 40
+SELFTEST_RUNS = 30
 DELIVERY_CAP = 30_000
 RULE = (
     "each case is 1-5 scripted client processes x 3-30 operations (get/put/delete/invalidate/invalidate_all/flush, plus "
@@ -122,12 +122,14 @@ def _key(rng, pool):
 
 def _clients(rng, fam, nk, weights, *, own, extra_gaps=(), tiers=0):
     n_clients = rng.choice((1, 2, 2, 3, 3, 3, 4, 4, 5))
+    if own:
+        n_clients = min(n_clients, nk)  # every client owns at least one key nobody else touches
     kinds = list(weights)
     wts = [weights[x] for x in kinds]
     out = []
     for ci in range(n_clients):
         if own:
-            pool = [k for k in range(nk) if k % n_clients == ci] or [ci % nk]
+            pool = [k for k in range(nk) if k % n_clients == ci]
         else:
             pool = list(range(nk))
             rng.shuffle(pool)
@@ -205,11 +207,21 @@ def gen(rng, tier):
         soft = min(hard, rng.choice((0, 200, 500, 1000, hard // 2, hard - 100, hard)))
         sc["soft"], sc["hard"] = soft, hard
         sc["cap"] = rng.choice((1, 1, 2, 2, 3, 4, None))
-        ext = rng.random() < 0.6
-        sc["klass"] = "sttl-external-writers" if ext else "sttl-cache-api-only"
+        r = rng.random()
         weights = {"get": 14, "put": 5, "inval": 1.5, "inval_all": 0.3}
-        if ext:
+        if r < 0.45:
+            sc["klass"] = "sttl-external-writers"
             weights.update({"xput": 2.5, "xdel": 2.5})
+        elif r < 0.7:
+            sc["klass"] = "sttl-cache-api-only"
+        else:
+            # avoidance: a key never leaves the cache (no invalidation, room for every key) and is never deleted
+            # behind the cache's back, so a reader that joins an in-flight refresh always finds a refreshed entry
+            sc["klass"] = "sttl-avoid-all-known"
+            sc["cap"] = rng.choice((None, nk, nk + 1))
+            weights = {"get": 14, "put": 5}
+            if rng.random() < 0.5:
+                weights["xput"] = 3
         r, c = sc["lat"]["r"], sc["lat"]["c"]
         extra = [g for g in (soft, hard, soft - r, hard - r, hard - c, soft - c, hard - r - c, hard + 100, hard - 100) if g >= 0]
         sc["clients"] = _clients(rng, fam, nk, weights, own=False, extra_gaps=tuple(extra))
@@ -253,6 +265,11 @@ def run(sc):
         cell = "sttl"
         head = "sttl"
     counters = dict(w.probes)
+    counters.update(w.counts)
+    if w.probes.get("probe.put_during_flush"):
+        counters["fault.put_while_flush_in_flight"] = 1
+    if w.probes.get("probe.read_overlapped_write_same_key"):
+        counters["fault.read_overlapped_write_same_key"] = 1
     counters[f"cell.{fam}.{cell}" if fam == "cs" else f"cell.{fam}"] = 1
     if fam == "mtc":
         for t in sc["tiers"]:
